@@ -637,6 +637,16 @@ Proof.
   - exact (timer_mw_bounds b armed id p scratch t i W H).
 Qed.
 
+(* heap buffer of the unknown-result-code branch: the snprintf bound does not exceed the allocation *)
+Lemma reg_unknown_fact : REG_UNKNOWN_BOUND <= REG_UNKNOWN_ALLOC /\ 0 <= REG_UNKNOWN_BOUND.
+Proof. split; vm_compute; discriminate. Qed.
+Theorem C03_register_unknown_in_bounds_thm : forall needed, 0 <= needed ->
+  0 <= reg_unknown_written needed <= REG_UNKNOWN_ALLOC.
+Proof.
+  intros n Hn. destruct reg_unknown_fact as [H1 H2]. unfold reg_unknown_written, snprintf_written.
+  set (B := REG_UNKNOWN_BOUND) in *. set (A := REG_UNKNOWN_ALLOC) in *. lia.
+Qed.
+
 (* ---- decidable form of wf_board (used for the examples and witnesses) ---- *)
 Definition relay_okb (r : relay) : bool := (0 <=? r_gpio r) && (r_gpio r <? GPIO_PINS - 1) && (0 <=? r_channel r) && (r_channel r <? 255).
 Definition input_okb (i : input) : bool := (0 <=? i_channel i) && (i_channel i <=? 255) && (0 <=? i_relay_gpio i) && (i_relay_gpio i <=? 255).
